@@ -147,6 +147,9 @@ class Ledger:
                 n = len(op["depth"])
             if len(op["vals"]) > n:
                 return "ValueError"
+        if k == "add_obj":
+            if 100 + op["name"] in self.names(op["h"]):
+                return "ValueError"
         if k == "set_values":
             d = self.data[op["d"]]
             if not d["depth"] and d["pg"] is not None:
@@ -181,12 +184,15 @@ class Ledger:
                 self.pgs[pg]["members"].append(dep)
             n = len(self.data[dep]["vals"])
             vals = list(op["vals"]) + [None] * (n - len(op["vals"]))
-            self.data[op["did"]] = {"h": h, "name": 100 + op["name"], "vals": vals, "pg": pg, "depth": False}
+            self.data[op["did"]] = {"h": h, "name": 100 + op["name"], "vals": vals, "pg": pg, "depth": False, "kind": op.get("kind", "float")}
             self.pgs[pg]["members"].append(op["did"])
+        elif k == "add_obj":
+            self.data[op["did"]] = {"h": op["h"], "name": 100 + op["name"], "vals": list(op["vals"]), "pg": None, "depth": False,
+                                    "kind": op.get("kind", "float")}
         elif k == "set_values":
             d = self.data[op["d"]]
             vals = list(op["vals"])
-            if not d["depth"] and d["pg"] is not None:
+            if not d["depth"] and d["pg"] is not None and d.get("kind") != "text":   # text values are stored as given
                 dep = self.depth_of(d["pg"])
                 if dep is not None:
                     vals += [None] * (len(self.data[dep]["vals"]) - len(vals))
@@ -211,9 +217,10 @@ class Ledger:
                 del self.data[d]
             del self.holes[h]
             self.dead_holes.add(h)
-        elif k == "reopen":
+        elif k in ("reopen", "reopen_lookups"):
             self.ws_removed = set()
             self.dropped_pg_names = set()
+        # save_hole, remove_via_group: nothing changes
 
     def _remove_data(self, did):
         d = self.data.pop(did)
@@ -250,15 +257,28 @@ class Ledger:
 LENS = [0, 1, 1, 2, 2, 3, 5]
 
 
-def _vals(rng, n, base):
-    # about one sample in eight is a NaN (no-data) given by the user
-    return [None if rng.chance(12) else base + rng.below(40) for _ in range(n)]
+WORDS = ["a", "ab", "abc", "clay", "sand", "shale", "granite", "sandstone", "limestone"]
+
+
+def kind_of_name(j):
+    """data names d0, d1 hold floats, d2 text, d3 integers or floats (whatever the hole that writes hands in)"""
+    return {0: "float", 1: "float", 2: "text", 3: "mix"}.get(j % 4, "float")
+
+
+def _vals(rng, n, base, kind="float"):
+    if kind == "text":
+        return [None if rng.chance(12) else rng.choice(WORDS) for _ in range(n)]
+    if kind == "int":
+        return [base + rng.below(40) for _ in range(n)]
+    # about one sample in eight is a NaN (no-data) given by the user; some are halves
+    return [None if rng.chance(12) else base + rng.below(40) + (0.5 if rng.chance(15) else 0) for _ in range(n)]
 
 
 def gen_case(rng, nops, version):
     led = Ledger()
     ops = []
     nid = [0]
+    state = {"reopen_after": 0, "phase": "main"}
 
     def fresh():
         nid[0] += 1
@@ -268,6 +288,17 @@ def gen_case(rng, nops, version):
         ops.append(op)
         if led.expected_error(op) is None:
             led.apply(op)
+        if state["phase"] == "main" and op["op"] not in ("reopen", "reopen_lookups") and state["reopen_after"]:
+            # a session whose only change is this operation
+            state["reopen_after"] = 0
+            ops.append({"op": "reopen"})
+            led.apply({"op": "reopen"})
+
+    def pick_kind(j, n, m):
+        k = kind_of_name(j)
+        if k == "mix":
+            return "int" if (rng.chance(45) and m == n and n > 0) else "float"
+        return k
 
     max_holes = rng.range(1, 5)
 
@@ -276,24 +307,26 @@ def gen_case(rng, nops, version):
         n = rng.choice([None, 1, 1, 2, 3, 4])
         emit({"op": "add_hole", "h": h, "surv": None if n is None else list(range(n))})
 
-    add_hole()
-    while len(ops) < nops:
+    def one_step(nops):
+        """emit at most one operation; returns False when the case must end"""
         holes = sorted(led.holes)
         kind = rng.weighted([("add_data", 26), ("set_values", 22), ("set_depth", 5), ("set_surveys", 6), ("add_hole", 8),
                              ("remove_data", 12), ("remove_pg", 4), ("remove_hole", 5), ("rename", 4), ("reopen", 7),
-                             ("add_pg", 2)])
+                             ("add_pg", 2), ("add_obj", 6), ("save_hole", 3), ("remove_via_group", 2), ("reopen_lookups", 2)])
+        if state["phase"] == "copy" and kind in ("reopen", "rename", "reopen_lookups", "add_hole"):
+            return True
         if kind == "add_hole" or not holes:
             if len(led.holes) < max_holes:
                 add_hole()
-            continue
+            return True
         h = rng.choice(holes)
         datas = [d for d in led.hole_data(h) if not led.data[d]["depth"]]
+        used = led.names(h) | {led.renamed[d] for d in led.hole_data(h) if d in led.renamed}
+        free = [j for j in range(4) if 100 + j not in used]
         if kind == "add_data":
             pgname = rng.below(3)
             pg = led.pg_by_name(h, pgname)
             dep = led.depth_of(pg) if pg is not None else None
-            used = led.names(h) | {led.renamed[d] for d in led.hole_data(h) if d in led.renamed}
-            free = [j for j in range(4) if 100 + j not in used]
             name = rng.choice(free) if free and rng.chance(93) else rng.below(4)
             if dep is None:
                 n = rng.choice(LENS)
@@ -302,8 +335,9 @@ def gen_case(rng, nops, version):
                 k = sum(1 for p in led.holes[h]["pgs"] if led.depth_of(p) is not None)
                 while (10 + k) in led.names(h):
                     k += 1
+                dk = pick_kind(name, n, m)
                 op = {"op": "add_data", "h": h, "pg": pgname, "name": name, "pgid": fresh(), "depid": fresh(), "did": fresh(),
-                      "depth": [1000 * (pgname + 1) + i for i in range(n)], "vals": _vals(rng, m, 0)}
+                      "depth": [1000 * (pgname + 1) + i for i in range(n)], "vals": _vals(rng, m, 0, dk), "kind": dk}
                 if rng.chance(4):
                     op["depth"] = None  # no depth and nothing to take it from
                 emit(op)
@@ -312,23 +346,34 @@ def gen_case(rng, nops, version):
             else:
                 n = len(led.data[dep]["vals"])
                 m = n if rng.chance(65) else (rng.below(n + 1) if rng.chance(85) else n + 1)
+                dk = pick_kind(name, n, m)
                 emit({"op": "add_data", "h": h, "pg": pgname, "name": name, "pgid": fresh(), "depid": fresh(), "did": fresh(),
-                      "depth": None, "vals": _vals(rng, m, 0)})
+                      "depth": None, "vals": _vals(rng, m, 0, dk), "kind": dk})
+        elif kind == "add_obj":
+            name = rng.choice(free) if free and rng.chance(93) else rng.below(4)
+            n = rng.choice(LENS)
+            dk = pick_kind(name, n, n)
+            emit({"op": "add_obj", "h": h, "name": name, "did": fresh(), "vals": _vals(rng, n, 20, dk), "kind": dk})
         elif kind == "set_values" and datas:
             d = rng.choice(datas)
+            dk = led.data[d].get("kind", "float")
             dep = led.depth_of(led.data[d]["pg"]) if led.data[d]["pg"] in led.pgs else None
             n = len(led.data[dep]["vals"]) if dep is not None else len(led.data[d]["vals"])
-            m = n if rng.chance(60) else (rng.below(n + 1) if rng.chance(85) else n + 1)
-            emit({"op": "set_values", "h": h, "d": d, "vals": _vals(rng, m, 50)})
+            m = n if (rng.chance(60) or dk == "int") else (rng.below(n + 1) if rng.chance(85) else n + 1)
+            emit({"op": "set_values", "h": h, "d": d, "vals": _vals(rng, m, 50, dk), "kind": dk})
         elif kind == "set_depth":
             deps = [d for d in led.hole_data(h) if led.data[d]["depth"]]
             if deps:
                 d = rng.choice(deps)
                 pgname = led.pgs[led.data[d]["pg"]]["name"]
                 n = len(led.data[d]["vals"]) + rng.choice([0, 1, 1, 2, 3])   # growing only: see notes/C04.md
-                emit({"op": "set_values", "h": h, "d": d, "vals": [1000 * (pgname + 1) + 100 + i for i in range(n)]})
+                emit({"op": "set_values", "h": h, "d": d, "vals": [1000 * (pgname + 1) + 100 + i for i in range(n)], "kind": "float"})
         elif kind == "set_surveys":
             emit({"op": "set_surveys", "h": h, "surv": list(range(rng.range(1, 5)))})
+        elif kind == "save_hole":
+            emit({"op": "save_hole", "h": h})
+        elif kind == "remove_via_group" and datas:
+            emit({"op": "remove_via_group", "h": h, "d": rng.choice(datas)})
         elif kind == "remove_data" and datas:
             emit({"op": "remove_data", "h": h, "d": rng.choice(datas), "ws": rng.chance(30)})
         elif kind == "remove_pg" and led.holes[h]["pgs"]:
@@ -338,33 +383,60 @@ def gen_case(rng, nops, version):
         elif kind == "rename" and datas and len(ops) * 10 >= nops * 6:
             # a renamed data set degenerates quickly (known findings): at most three follow-up operations, then the case ends
             d = rng.choice(datas)
+            dk = led.data[d].get("kind", "float")
             old = led.data[d]["name"] - 100
+            state["reopen_after"] = 0
             emit({"op": "rename", "h": h, "d": d, "new": 4 + rng.below(4)})
             reopened = False
             for _ in range(rng.range(0, 3)):
                 f = rng.weighted([("set", 30), ("reopen", 25), ("remove", 25), ("readd", 20)])
                 if f == "set":
                     n = len(led.data[d]["vals"])
-                    emit({"op": "set_values", "h": h, "d": d, "vals": _vals(rng, n, 50)})
+                    emit({"op": "set_values", "h": h, "d": d, "vals": _vals(rng, n, 50, dk), "kind": dk})
                 elif f == "reopen" and not reopened:
                     reopened = True
                     emit({"op": "reopen"})
                 elif f == "remove":
                     emit({"op": "remove_data", "h": h, "d": d, "ws": rng.chance(30)})
                     break
-                elif f == "readd":
+                elif f == "readd" and led.data[d]["pg"] in led.pgs:
                     pgn = led.pgs[led.data[d]["pg"]]["name"]
                     emit({"op": "add_data", "h": h, "pg": pgn, "name": old, "pgid": fresh(), "depid": fresh(), "did": fresh(),
-                          "depth": None, "vals": []})
+                          "depth": None, "vals": [], "kind": kind_of_name(old) if kind_of_name(old) != "mix" else "float"})
                     break
-            return {"version": version, "f32": rng.chance(40), "ops": ops}
+            return False
         elif kind == "add_pg":
             emit({"op": "add_pg", "h": h, "pg": rng.below(3), "pgid": fresh()})
-        elif kind == "reopen":
-            emit({"op": "reopen"})
-    if rng.chance(60):
+        elif kind in ("reopen", "reopen_lookups"):
+            emit({"op": kind})
+            if rng.chance(35):
+                state["reopen_after"] = 1
+        return True
+
+    add_hole()
+    renamed = False
+    while len(ops) < nops:
+        if not one_step(nops):
+            renamed = True
+            break
+    case = {"version": version, "f32": rng.chance(40)}
+    if not renamed and rng.chance(60):
         ops.append({"op": "reopen"})
-    return {"version": version, "f32": rng.chance(40), "ops": ops}
+        led.apply({"op": "reopen"})
+    case["ops"] = list(ops)
+    if not renamed and led.holes and rng.chance(22):
+        # group.copy(parent=another workspace), then operations on the COPY while the source is re-read
+        state["phase"] = "copy"
+        state["reopen_after"] = 0
+        start = len(ops)
+        target = start + rng.range(2, 7)
+        guard = 0
+        while len(ops) < target and guard < 60:
+            guard += 1
+            one_step(10**6)
+        case["copy_ops"] = ops[start:]
+        case["comment"] = rng.chance(50)
+    return case
 
 
 def generate(rng, tier):
@@ -380,13 +452,27 @@ ERRS = {"ValueError": "ValueError", "AttributeError": "AttributeError", "KeyErro
 
 
 def _num(x, api=False):
-    """raw datasets store no-data as FLOAT_NDV; through the API no-data must come back as NaN"""
+    """canonical form of one stored value: int, half (k + 0.5), text, None for no-data; anything else is kept as {"float": x}.
+    Raw datasets store numeric no-data as FLOAT_NDV and text no-data as ''; through the API no-data must come back as NaN / ''."""
+    if isinstance(x, bytes):
+        x = x.decode("utf-8", "replace")
+    if isinstance(x, str):
+        return None if x == "" else x
     x = float(x)
     if x != x or (not api and abs(x - NDV) < 1e-44):
         return None
-    if x.is_integer() and abs(x) < 10**9:
-        return int(x)
+    if abs(x) < 10**9 and (2 * x).is_integer():
+        return int(x) if x.is_integer() else x
     return {"float": x}
+
+
+def _arr_vals(arr, api):
+    import numpy as np
+
+    arr = np.asarray(arr)
+    if arr.dtype.kind in "OSU":
+        return [_num(x, api) for x in arr.tolist()]
+    return [_num(x, api) for x in arr.astype(float).tolist()]
 
 
 class _NoEntity(Exception):
@@ -469,10 +555,10 @@ class _Drv:
                     arr = ds[:]
                     if arr.dtype.names:  # Surveys
                         data = [_num(x) for x in arr["Depth"].tolist()]
-                    elif arr.dtype.kind in "OSU":
+                    elif lab == "Property Group IDs":
                         data = [self.num(x) for x in arr.tolist()]
                     else:
-                        data = [_num(x) for x in np.asarray(arr, dtype=float).tolist()]
+                        data = _arr_vals(arr, api=False)
                 tabs[lab.replace("⁄", "/")] = {"rows": rows, "data": data}
         objs = [self.num(x) for x in grp["Concatenated object IDs"][:].tolist()] if "Concatenated object IDs" in grp else []
         return tabs, objs, cd
@@ -523,10 +609,10 @@ class _Drv:
                 data = None
             elif arr.dtype.names:
                 data = [_num(x) for x in arr["Depth"].tolist()]
-            elif arr.dtype.kind in "OSU":
+            elif lab == "Property Group IDs":
                 data = [self.num(x) for x in arr.tolist()]
             else:
-                data = [_num(x, api=True) for x in arr.astype(float).tolist()]
+                data = _arr_vals(arr, api=True)
             mem[lab] = {"rows": rows, "data": data}
         vals = []
         live = set(self.num(x) for x in (g.concatenated_object_ids or []))
@@ -539,7 +625,7 @@ class _Drv:
             for c in hole.children:
                 if isinstance(c, Data):
                     v = self.ws.fetch_values(c)
-                    vals.append([c.name, hn, self.num(c.uid), None if v is None else [_num(x, api=True) for x in np.asarray(v, dtype=float).tolist()]])
+                    vals.append([c.name, hn, self.num(c.uid), None if v is None else _arr_vals(v, api=True)])
         attrs = g.concatenated_attributes["Attributes"] if g.concatenated_attributes else []
         return {
             "tabs": tabs, "mem": mem, "objs": objs, "mem_objs": [self.num(x) for x in (g.concatenated_object_ids or [])],
@@ -560,7 +646,8 @@ class _Drv:
                 cols = list(dt.dtype.names)
                 rows = []
                 for r in dt.tolist():
-                    rows.append([self.num(r[0])] + [_num(x, api=True) for x in r[1:]])
+                    # text cells stay text; an integer column shows no-data as the integer no-data value
+                    rows.append([self.num(r[0])] + [None if x == -2147483648 else _num(x, api=True) for x in r[1:]])
                 out[name] = {"cols": cols, "rows": rows}
             except Exception as e:  # noqa: BLE001
                 out[name] = {"error": type(e).__name__ + ": " + str(e)[:120]}
@@ -579,6 +666,17 @@ class _Drv:
                 self.reg(c, op.get("depid", UNKNOWN))
             else:
                 self.reg(c, op.get("did", UNKNOWN))
+
+    def spec(self, op):
+        """the array a user hands in: float64 / float32 with NaN, int32, or text"""
+        import numpy as np
+
+        kind = op.get("kind", "float")
+        if kind == "text":
+            return {"values": np.array(["" if v is None else v for v in op["vals"]], dtype=str), "type": "TEXT"}
+        if kind == "int":
+            return {"values": np.array(op["vals"], dtype=np.int32)}
+        return {"values": np.array([np.nan if v is None else float(v) for v in op["vals"]], dtype=self.ftype)}
 
     def run_op(self, op):
         import numpy as np
@@ -602,15 +700,26 @@ class _Drv:
             finally:
                 self.assign_new(op["h"], op)
         elif k == "add_data":
-            spec = {"values": np.array([np.nan if v is None else float(v) for v in op["vals"]], dtype=self.ftype)}
+            spec = self.spec(op)
             if op["depth"] is not None:
                 spec["depth"] = np.array(op["depth"], dtype=float)
             try:
                 self.hole(op["h"]).add_data({f"d{op['name']}": spec}, property_group=f"pg{op['pg']}")
             finally:
                 self.assign_new(op["h"], op)
+        elif k == "add_obj":
+            spec = self.spec(op)
+            spec["association"] = "OBJECT"
+            try:
+                self.hole(op["h"]).add_data({f"d{op['name']}": spec})
+            finally:
+                self.assign_new(op["h"], op)
+        elif k == "save_hole":
+            ws.save_entity(self.hole(op["h"]))
+        elif k == "remove_via_group":
+            g.remove_children(self.data(op["h"], op["d"]))
         elif k == "set_values":
-            self.data(op["h"], op["d"]).values = np.array([np.nan if v is None else float(v) for v in op["vals"]], dtype=self.ftype)
+            self.data(op["h"], op["d"]).values = self.spec(op)["values"]
         elif k == "rename":
             self.data(op["h"], op["d"]).name = f"d{op['new']}"
         elif k == "remove_data":
@@ -634,66 +743,132 @@ class _Drv:
         else:
             raise ValueError(k)
 
-    def run(self):
+    def reopen(self, step, lookups=False):
+        import uuid as _uuid
         import h5py
+        from geoh5py import Workspace
+        from geoh5py.objects import Drillhole
+
+        self.ws.close()
+        if lookups:
+            # a session without any change: only look-ups that find nothing
+            self.ws = Workspace(self.path, mode="r+")
+            self.g = self.ws.get_entity("G")[0]
+            self.g.get_concatenated_attributes(_uuid.uuid4())
+            self.ws.get_entity(_uuid.uuid4())
+            for hole in self.g.children:
+                if isinstance(hole, Drillhole):
+                    hole.get_data("no such data")
+                    break
+            self.ws.close()
+        with h5py.File(self.path, "r") as f:
+            tabs, objs, cd = self.raw_tables(f)
+            enc, attrs = self.raw_attrs(cd)
+            step["closed"] = {"tabs": tabs, "objs": objs, "recs": self.recs(attrs), "encoding": enc}
+        self.ws = Workspace(self.path, mode="r+")
+        self.g = self.ws.get_entity("G")[0]
+        self.load_all()
+        step["snap"] = self.snapshot()
+        step["view"] = self.tables_view()
+
+    def do_ops(self, ops, extra=None):
+        """run the operations; returns the list of steps (the last one may be a hard error)"""
+        steps = []
+        for op in ops:
+            step = {}
+            if op["op"] in ("reopen", "reopen_lookups"):
+                try:
+                    self.reopen(step, lookups=op["op"] == "reopen_lookups")
+                except Exception as e:  # noqa: BLE001
+                    step["hard"] = type(e).__name__
+                    step["msg"] = str(e)[:200]
+                    steps.append(step)
+                    break
+                steps.append(step)
+                continue
+            try:
+                self.run_op(op)
+            except _NoEntity as e:
+                step["hard"] = "NoEntity"
+                step["msg"] = str(e)[:200]
+                steps.append(step)
+                break
+            except Exception as e:  # noqa: BLE001
+                name = type(e).__name__
+                step["msg"] = str(e)[:200]
+                soft = (op["op"] in ("add_data", "add_obj", "set_values") and name in ("ValueError", "AttributeError"))
+                if not soft:
+                    step["hard"] = name
+                    try:
+                        step["snap"] = self.snapshot()
+                    except Exception as e2:  # noqa: BLE001
+                        step["snap_error"] = type(e2).__name__
+                    steps.append(step)
+                    break
+                step["soft"] = name
+            step["snap"] = self.snapshot()
+            if extra is not None:
+                extra(step)
+            steps.append(step)
+        return steps
+
+    def run(self):
         from geoh5py import Workspace
         from geoh5py.groups import DrillholeGroup
 
-        if os.path.exists(self.path):
-            os.remove(self.path)
-        steps = []
+        path2 = self.path.replace(".geoh5", "_copy.geoh5")
+        for p in (self.path, path2):
+            if os.path.exists(p):
+                os.remove(p)
+        out = {}
+        ws2 = None
         self.ws = Workspace.create(self.path, version=self.case["version"])
         try:
             self.g = DrillholeGroup.create(self.ws, name="G")
             self.guid = str(self.g.uid)
-            for op in self.case["ops"]:
-                step = {}
-                if op["op"] == "reopen":
-                    self.ws.close()
-                    with h5py.File(self.path, "r") as f:
-                        tabs, objs, cd = self.raw_tables(f)
-                        enc, attrs = self.raw_attrs(cd)
-                        step["closed"] = {"tabs": tabs, "objs": objs, "recs": self.recs(attrs), "encoding": enc}
-                    self.ws = Workspace(self.path, mode="r+")
-                    self.g = self.ws.get_entity("G")[0]
-                    self.load_all()
-                    step["snap"] = self.snapshot()
-                    step["view"] = self.tables_view()
-                    steps.append(step)
-                    continue
+            steps = self.do_ops(self.case["ops"])
+            out["steps"] = steps
+            crashed = bool(steps and "hard" in steps[-1])
+            out["final"] = {} if crashed else {"view": self.tables_view()}
+            if not crashed and self.case.get("copy_ops") is not None:
+                src = (self.ws, self.g, self.guid)
+
+                def src_snap():
+                    cur = (self.ws, self.g, self.guid)
+                    self.ws, self.g, self.guid = src
+                    try:
+                        return self.snapshot()
+                    finally:
+                        self.ws, self.g, self.guid = cur
+
+                cp = {}
+                out["copy"] = cp
                 try:
-                    self.run_op(op)
-                except _NoEntity as e:
-                    step["hard"] = "NoEntity"
-                    step["msg"] = str(e)[:200]
-                    steps.append(step)
-                    break
+                    if self.case.get("comment"):
+                        self.g.add_comment("kept with the group")
+                    ws2 = Workspace.create(path2, version=self.case["version"])
+                    g2 = self.g.copy(parent=ws2)
+                    self.ws, self.g, self.guid = ws2, g2, str(g2.uid)
+                    self.load_all()
+                    cp["start"] = {"snap": self.snapshot(), "src": src_snap()}
+                    cp["steps"] = self.do_ops(self.case["copy_ops"], extra=lambda st: st.__setitem__("src", src_snap()))
+                    if not (cp["steps"] and "hard" in cp["steps"][-1]):
+                        cp["view"] = self.tables_view()
                 except Exception as e:  # noqa: BLE001
-                    name = type(e).__name__
-                    step["msg"] = str(e)[:200]
-                    soft = (op["op"] in ("add_data", "set_values") and name in ("ValueError", "AttributeError"))
-                    if not soft:
-                        step["hard"] = name
-                        try:
-                            step["snap"] = self.snapshot()
-                        except Exception as e2:  # noqa: BLE001
-                            step["snap_error"] = type(e2).__name__
-                        steps.append(step)
-                        break
-                    step["soft"] = name
-                step["snap"] = self.snapshot()
-                steps.append(step)
-            final = {}
-            if not (steps and "hard" in steps[-1]):
-                final["view"] = self.tables_view()
+                    cp["error"] = type(e).__name__ + ": " + str(e)[:200]
+                finally:
+                    self.ws, self.g, self.guid = src
         finally:
-            try:
-                self.ws.close()
-            except Exception:  # noqa: BLE001
-                pass
-        if os.path.exists(self.path):
-            os.remove(self.path)
-        return {"steps": steps, "final": final}
+            for w in (ws2, self.ws):
+                try:
+                    if w is not None:
+                        w.close()
+                except Exception:  # noqa: BLE001
+                    pass
+        for p in (self.path, path2):
+            if os.path.exists(p):
+                os.remove(p)
+        return out
 
 
 def drive_one(case, work):
@@ -702,8 +877,22 @@ def drive_one(case, work):
 
 
 # ----------------------------------------------------------------------------- Coq case terms
+def _zenc(v):
+    """values as integers for the Coq terms: numbers doubled (halves are exact), text as a base-27 number above 10^6"""
+    if isinstance(v, str):
+        n = 0
+        for ch in v:
+            if not ("a" <= ch <= "z"):
+                raise _Inexpressible("text outside a-z")
+            n = n * 27 + (ord(ch) - 96)
+        return 1_000_000 + n
+    if isinstance(v, dict):
+        raise _Inexpressible("non-dyadic value")
+    return int(round(2 * v))
+
+
 def _val(v):
-    return copt(v, cz)
+    return "None" if v is None else "(Some %s)" % cz(_zenc(v))
 
 
 def _vlist(vs):
@@ -722,8 +911,14 @@ def _op_term(op):
         return "AddData %s %s %s %s %s %s %s %s" % (
             cnat(op["h"]), cnat(op["pg"]), cnat(100 + op["name"]), cnat(op["pgid"]), cnat(op["depid"]), cnat(op["did"]),
             "None" if op["depth"] is None else "(Some %s)" % _vlist(op["depth"]), _vlist(op["vals"]))
+    if k == "add_obj":
+        return "AddObjData %s %s %s %s" % (cnat(op["h"]), cnat(100 + op["name"]), cnat(op["did"]), _vlist(op["vals"]))
+    if k == "save_hole":
+        return "SaveHole %s" % cnat(op["h"])
+    if k == "remove_via_group":
+        return "RemoveViaGroup %s %s" % (cnat(op["h"]), cnat(op["d"]))
     if k == "set_values":
-        return "SetValues %s %s %s" % (cnat(op["h"]), cnat(op["d"]), _vlist(op["vals"]))
+        return "%s %s %s %s" % ("SetText" if op.get("kind") == "text" else "SetValues", cnat(op["h"]), cnat(op["d"]), _vlist(op["vals"]))
     if k == "rename":
         return "Rename %s %s %s" % (cnat(op["h"]), cnat(op["d"]), cnat(100 + op["new"]))
     if k == "remove_data":
@@ -732,9 +927,9 @@ def _op_term(op):
         return "RemovePG %s %s %s" % (cnat(op["h"]), cnat(op["pg"]), cbool(op["ws"]))
     if k == "remove_hole":
         return "RemoveHole %s %s" % (cnat(op["h"]), cbool(op["ws"]))
-    if k == "reopen":
-        return "Reopen"
-    raise ValueError(k)
+    if k in ("reopen", "reopen_lookups"):
+        return "Reopen"     # a session of look-ups that find nothing changes nothing
+    raise _Inexpressible("operation " + k)
 
 
 class _Inexpressible(Exception):
@@ -744,12 +939,11 @@ class _Inexpressible(Exception):
 def _table_term(lab, t):
     if t["data"] is None:
         raise _Inexpressible(f"label {lab} without data")
-    for v in t["data"]:
-        if isinstance(v, dict):
-            raise _Inexpressible("non-integer value")
     if any(not (0 <= x < 5000) for r in t["rows"] for x in r) or len(t["data"]) >= 5000:
         raise _Inexpressible("number too large (wrapped start index?)")
     rows = clist("mkrow %s %s %s %s" % (cnat(r[0]), cnat(r[1]), cnat(r[2]), cnat(r[3])) for r in t["rows"])
+    if lab == "Property Group IDs":     # identifiers, as the model writes them (ids_val)
+        return "mktab %s %s" % (rows, clist("(Some %s)" % cz(v) for v in t["data"]))
     return "mktab %s %s" % (rows, _vlist(t["data"]))
 
 
@@ -791,15 +985,13 @@ def _snap_term(sn):
         lid = label_id(lab)
         if lid is None:
             raise _Inexpressible("label " + lab)
-        if v is not None and any(isinstance(x, dict) for x in v):
-            raise _Inexpressible("non-integer value")
         vals.append("(%s, %s, %s, %s)" % (cnat(lid), cnat(h), cnat(d), "None" if v is None else "(Some %s)" % _vlist(v)))
     return "mksnap %s %s %s %s" % (clist(tabs), clist(_rec_term(r) for r in sn["recs"]), clist(cnat(o) for o in sn["objs"]), clist(vals))
 
 
-def _obs_terms(obs):
+def _obs_terms(steps):
     evs = []
-    for stp in obs["steps"]:
+    for stp in steps:
         if "hard" in stp:
             e = ERRS.get(stp["hard"])
             if e is None:
@@ -811,21 +1003,38 @@ def _obs_terms(obs):
     return evs
 
 
+def _complete(ops, steps):
+    return len(steps) == len(ops) or (steps and "hard" in steps[-1])
+
+
 def case_term(case, obs):
     if "steps" not in obs:
         return "false"
+    if any(o["op"] == "lookup" for o in case["ops"]):
+        return None     # a look-up miss inside a changing session (recorded finding): oracle only
     try:
-        evs = _obs_terms(obs)
+        if not _complete(case["ops"], obs["steps"]):
+            return "false"
+        evs = _obs_terms(obs["steps"])
+        ops = clist(_op_term(o) for o in case["ops"][: len(obs["steps"])])
+        if case.get("copy_ops") is None or "copy" not in obs:
+            return "agree %s %s" % (ops, clist(evs))
+        cp = obs["copy"]
+        if "error" in cp or not _complete(case["copy_ops"], cp["steps"]):
+            return "false"
+        cevs = _obs_terms(cp["steps"])
+        cops = clist(_op_term(o) for o in case["copy_ops"][: len(cp["steps"])])
+        ssnaps = [cp["start"]["snap"], cp["start"]["src"]] + [st["src"] for st in cp["steps"] if "src" in st]
+        return "agree_copy %s %s %s %s %s" % (ops, clist(evs), cops, clist(cevs), clist("(%s)" % _snap_term(x) for x in ssnaps))
     except _Inexpressible:
         return "false"
-    ops = case["ops"][: len(obs["steps"])]
-    if len(obs["steps"]) < len(case["ops"]) and not (obs["steps"] and "hard" in obs["steps"][-1]):
-        return "false"
-    return "agree %s %s" % (clist(_op_term(o) for o in ops), clist(evs))
 
 
 def model_term(case):
-    return "arun init %s" % clist(_op_term(o) for o in case["ops"])
+    try:
+        return "arun init %s" % clist(_op_term(o) for o in case["ops"] + (case.get("copy_ops") or []))
+    except _Inexpressible:
+        return None
 
 
 # ----------------------------------------------------------------------------- oracle (property text + ledger; independent of the model)
@@ -1012,17 +1221,13 @@ def _check_view(led, view, sn, where, fails, stats=None):
             fails.append({"key": key, "what": f"{where}: depth_table pg{pname} columns {cols} rows {tab['rows']}; the holes' groups pg{pname} give columns {[assoc] + names} rows {exp}"})
 
 
-def oracle(case, obs, stats=None):
-    if "crash" in obs:
-        return [{"key": "driver-crash", "what": obs["crash"][:300] + " " + obs.get("tb", "")[-400:]}]
-    fails = []
-    led = Ledger()
-    steps = obs["steps"]
-    for i, op in enumerate(case["ops"]):
+def _walk(case, led, ops, steps, prefix, fails, stats, src_led=None):
+    """follow the operations with the ledger and check every snapshot; returns False when the run stopped early"""
+    for i, op in enumerate(ops):
         if i >= len(steps):
-            break
+            return False
         stp = steps[i]
-        where = f"step {i} {op['op']}"
+        where = f"{prefix}step {i} {op['op']}"
         exp = led.expected_error(op)
         if "hard" in stp:
             k = op["op"]
@@ -1034,22 +1239,26 @@ def oracle(case, obs, stats=None):
                     key = "hole-removal-after-workspace-data-removal-keyerror"
                 else:
                     key = "remove-keyerror"
+            elif stp["hard"] == "KeyError" and k in ("reopen", "reopen_lookups") and "'ID'" in stp.get("msg", "") and getattr(led, "lookup_miss", False):
+                key = "lookup-miss-placeholder-persisted"
             else:
                 key = "operation-crashed:" + stp["hard"]
             fails.append({"key": key, "what": f"{where} raised {stp['hard']}: {stp.get('msg')}"})
-            break
+            return False
+        if op["op"] == "lookup":
+            led.lookup_miss = True
         got = stp.get("soft")
         if got != exp:
             if got is not None and exp is None and op["op"] == "add_data" and "already present" in stp.get("msg", "") and "DEPTH" in stp.get("msg", ""):
                 fails.append({"key": "add-refused-depth-name-taken", "what": f"{where} {op} raised {got}: {stp.get('msg')}"})
-            elif (got == "ValueError" and exp is None and op["op"] == "add_data" and "already present" in stp.get("msg", "")
+            elif (got == "ValueError" and exp is None and op["op"] in ("add_data", "add_obj") and "already present" in stp.get("msg", "")
                   and any(led.renamed.get(d) == 100 + op["name"] for d in led.hole_data(op["h"]))):
                 fails.append({"key": "rename-leaves-old-property-key", "what": f"{where} {op} raised {got}: {stp.get('msg')} (the name was freed by a rename)"})
             elif got is not None and exp is None:
                 fails.append({"key": "valid-operation-refused", "what": f"{where} {op} raised {got}: {stp.get('msg')}"})
             else:
                 fails.append({"key": "invalid-operation-accepted", "what": f"{where} {op}: expected {exp}, got {got}"})
-            break
+            return False
         before = led.clone()
         if exp is None and op["op"] == "add_data" and op["depth"] is None:
             pg = led.pg_by_name(op["h"], op["pg"])
@@ -1060,7 +1269,7 @@ def oracle(case, obs, stats=None):
             if twins and landed == [twins[0]]:
                 fails.append({"key": "add-to-group-lands-in-collocated-group",
                               "what": f"{where} {op}: the data was added to group {twins[0]} (same depths) instead of the requested group {pg}"})
-                break
+                return False
         if exp is None:
             led.apply(op)
             if op["op"] == "add_data" and op["depid"] in led.data and led.data[op["depid"]]["name"] is None:
@@ -1068,9 +1277,6 @@ def oracle(case, obs, stats=None):
                 for r in stp["snap"]["recs"]:
                     if r["id"] == op["depid"] and r["kind"] == "data":
                         led.data[op["depid"]]["name"] = label_id(r["name"] or "")
-        else:
-            # a refused operation must leave everything as it was
-            pass
         if "closed" in stp:
             want_enc = "Attributes Jsons" if case["version"] > 2.0 else "Attributes"
             if stp["closed"]["encoding"] not in (want_enc, None):
@@ -1080,11 +1286,35 @@ def oracle(case, obs, stats=None):
             _check_snapshot(before, {"tabs": stp["closed"]["tabs"], "objs": stp["closed"]["objs"], "recs": stp["closed"]["recs"],
                                      "vals": []}, where + " (file after close)", fails, readback=False)
         _check_snapshot(led, stp["snap"], where, fails)
+        if src_led is not None and "src" in stp:
+            # the SOURCE group, re-read after the operation on the copy, must be what it was
+            _check_snapshot(src_led, stp["src"], where + " (source re-read)", fails)
         if "view" in stp:
             _check_view(led, stp["view"], stp["snap"], where, fails, stats)
-    else:
-        if obs.get("final", {}).get("view") is not None and steps:
-            _check_view(led, obs["final"]["view"], steps[-1]["snap"], "end", fails, stats)
+    return True
+
+
+def oracle(case, obs, stats=None):
+    if "crash" in obs:
+        return [{"key": "driver-crash", "what": obs["crash"][:300] + " " + obs.get("tb", "")[-400:]}]
+    fails = []
+    led = Ledger()
+    steps = obs["steps"]
+    done = _walk(case, led, case["ops"], steps, "", fails, stats)
+    if done and obs.get("final", {}).get("view") is not None and steps:
+        _check_view(led, obs["final"]["view"], steps[-1]["snap"], "end", fails, stats)
+    if done and case.get("copy_ops") is not None and not any(f["key"] in ("valid-operation-refused", "invalid-operation-accepted") for f in fails):
+        cp = obs.get("copy")
+        if cp is None or "error" in cp:
+            fails.append({"key": "copy-failed", "what": f"group.copy(parent=other workspace) raised {None if cp is None else cp['error']}"})
+        else:
+            cled = led.clone()
+            cled.dropped_pg_names = set()
+            _check_snapshot(cled, cp["start"]["snap"], "copy", fails)
+            _check_snapshot(led, cp["start"]["src"], "copy (source re-read)", fails)
+            cdone = _walk(case, cled, case["copy_ops"], cp["steps"], "copy ", fails, stats, src_led=led)
+            if cdone and cp.get("view") is not None and cp["steps"]:
+                _check_view(cled, cp["view"], cp["steps"][-1]["snap"], "copy end", fails, stats)
     # one report per key
     seen, out = set(), []
     for f in fails:
@@ -1126,7 +1356,12 @@ def histogram(cases, obs):
         h["n_ops"][b] = h["n_ops"].get(b, 0) + 1
         nh = str(sum(1 for op in c["ops"] if op["op"] == "add_hole"))
         h["holes"][nh] = h["holes"].get(nh, 0) + 1
-        for op in c["ops"]:
+        if c.get("copy_ops") is not None:
+            h["copy_cases"] = h.get("copy_cases", 0) + 1
+        for op in c["ops"] + (c.get("copy_ops") or []):
+            if "kind" in op:
+                h.setdefault("value_kinds", {})[op["kind"]] = h.setdefault("value_kinds", {}).get(op["kind"], 0) + 1
+        for op in c["ops"] + (c.get("copy_ops") or []):
             h["op_kinds"][op["op"]] = h["op_kinds"].get(op["op"], 0) + 1
             if op["op"] == "reopen":
                 h["reopens"] += 1
